@@ -18,6 +18,7 @@ A step is a dict; "o" is the owner ("P" or "H"); handles are strings (by convent
 operations outside the Coq model's alphabet (compared between runs only):
   table   dst view                 session.table(view)
   unionbyname dst l r allow        l.unionByName(r, allowMissingColumns=allow)
+  reader  dst chain                a kept reader object: r = session.read[.option...]; csv steps may name it with "reader"
   csv     dst file chain kw        session.read[.option(k, v) | .options(**d) | .format(f)]*.csv(path, **kw)  /  .load(path) when kw == "load"
   api     dst src name args        one call of the wider DataFrame API (see API below)
 """
@@ -238,8 +239,13 @@ def main():
                 ob["rows"] = s2 is s
             elif op == "api":
                 env[st["dst"]] = api(env[st["src"]], st["name"], st.get("args") or {})
-            elif op == "csv":
+            elif op == "reader":
                 rd = s.read
+                for c in st.get("chain") or []:
+                    rd = rd.option(c[1], c[2]) if c[0] == "option" else rd.options(**c[1]) if c[0] == "options" else rd.format(c[1])
+                env[st["dst"]] = rd          # a reader OBJECT that is kept and used for several reads
+            elif op == "csv":
+                rd = env[st["reader"]] if st.get("reader") else s.read
                 for c in st.get("chain") or []:
                     if c[0] == "option":
                         rd = rd.option(c[1], c[2])
